@@ -173,7 +173,20 @@ def coverage_check(scratch, tla, cfg, actions, tag="cov", timeout=1200, cfg_subs
     return {"actions_covered": {a: r["coverage"].get(a) for a in actions if a in r["coverage"]}, "not_reported": missing}
 
 
-def op_histogram(traces_path, required, what):
+def op_reachable(scratch, tla, cfg, op, cfg_subst=None):
+    """Is operation `op` taken somewhere in the state graph of (tla, cfg)?  TLC is run with the invariant NeverOp
+    (the spec reads VERIF_NEVER_OP), which is violated exactly when the operation is taken."""
+    subst = dict(cfg_subst or {})
+    subst["CHECK_DEADLOCK FALSE"] = "INVARIANT NeverOp\nCHECK_DEADLOCK FALSE"
+    os.environ["VERIF_NEVER_OP"] = op
+    try:
+        r = run_tlc(scratch, tla, cfg, tag="reach-" + op, cfg_subst=subst, emit_every=10 ** 9, emit_offset=1, timeout=900)
+    finally:
+        os.environ.pop("VERIF_NEVER_OP", None)
+    return any("NeverOp is violated" in e for e in r["errors"])
+
+
+def op_histogram(traces_path, required, what, probe=None):
     """Vacuity guard on emitted behaviours: how often each operation is the LAST step of a
     behaviour (= a transition of the explored state graph). A required operation that never
     occurs makes the check broken, not passing."""
@@ -186,6 +199,9 @@ def op_histogram(traces_path, required, what):
             if ops:
                 counts[ops[-1]] = counts.get(ops[-1], 0) + 1
     dead = [a for a in required if counts.get(a, 0) == 0]
+    if dead and probe:
+        # the behaviours were sampled: an operation missing from the sample may still be in the state graph
+        dead = [a for a in dead if not probe(a)]
     if dead:
         raise Broken("%s: operations never taken in the explored state graph: %s" % (what, dead))
     return counts
